@@ -3,6 +3,7 @@ package props
 import (
 	"fmt"
 	"math"
+	"strconv"
 	"strings"
 
 	"github.com/philhassey/goatlang"
@@ -577,7 +578,7 @@ type c4replay struct {
 	Type int       `json:"type"`
 	Tier string    `json:"tier"`
 	Form string    `json:"form"`
-	Args []float64 `json:"args"`
+	Args []string  `json:"args"` // strconv 'g' -1 (NaN, Inf and -0 survive JSON)
 }
 
 func c4forEachArgs(f *c4form, fn func(args []float64)) {
@@ -670,7 +671,7 @@ func c4run(r *report.Run) {
 			r.Eval(n)
 			r.NontrivialN(nt)
 			if bad > 0 {
-				r.Fail(&report.Case{Kind: "form", Key: f.key, Input: c4replay{int(j.t), r.Tier, f.key, firstBad},
+				r.Fail(&report.Case{Kind: "form", Key: f.key, Input: c4replay{int(j.t), r.Tier, f.key, c4strs(firstBad)},
 					Want: firstWant, Got: fmt.Sprintf("%s   [first of %d failing operand tuples: %v]\n%s", firstGot, bad, firstBad, f.src)})
 			}
 			if (k*7+fi)%211 == 0 {
@@ -799,6 +800,22 @@ func c4goFmt(r c4res) string {
 	return fmt.Sprintf("%v float64", r.v)
 }
 
+func c4strs(a []float64) []string {
+	out := make([]string, len(a))
+	for i, x := range a {
+		out[i] = strconv.FormatFloat(x, 'g', -1, 64)
+	}
+	return out
+}
+
+func c4floats(a []string) []float64 {
+	out := make([]float64, len(a))
+	for i, x := range a {
+		out[i], _ = strconv.ParseFloat(x, 64)
+	}
+	return out
+}
+
 func c4rerun(c *report.Case) (bool, string) {
 	var in c4replay
 	if !remarshal(c.Input, &in) {
@@ -823,8 +840,9 @@ func c4rerun(c *report.Case) (bool, string) {
 		if lr := m.Load(goat.FS(map[string]string{"p/x.go": src}), "p"); lr.Failed() {
 			return true, lr.String()
 		}
-		got := c4call(m, m.VM.Get("p."+f.name), f, in.Args)
-		return got != c4fmt(f.eval(in.Args)), got
+		args := c4floats(in.Args)
+		got := c4call(m, m.VM.Get("p."+f.name), f, args)
+		return got != c4fmt(f.eval(args)), got
 	}
 	return false, "form not found"
 }
